@@ -1,9 +1,13 @@
 ----------------------------- MODULE O2OFlatten -----------------------------
-(* C03 (child paths): requirement layer.  A flat struct S whose members carry #[child(p)];
-   the counterpart D is a tree of named structs.  Written from README "Flatened children". *)
-EXTENDS O2OSyntax, TLC
+(* C03: flattened (child / parent) mappings.
+   Requirement layer: a flat struct S whose members carry #[child(p)]; the counterpart D is a tree of structs.
+     in == [ms |-> Seq([path |-> Seq(STRING), it |-> "none" | "ren" | "expr"]),
+            gs |-> Seq([path |-> Seq(STRING)])]         \* struct-level ghosts `p@g<j>: {..}` (counterpart-only leaves)
+   Algorithm layer: the grouping (first-seen key, stable sort) and the descent cursor of expand.rs as an
+   implementation-shaped model, checked by TLC against OnceEach / AllLines; with the repaired sort key as an
+   alternative (constant `Repaired` in MC_Group).  Written from README "Flatened children" and DESIGN Appendix B/D. *)
+EXTENDS O2OSyntax, TLC, SequencesExt
 
-\* input == [ms |-> Seq([path |-> Seq(STRING), it |-> "none"|"ren"|"expr"])]
 N2S(i) == ToString(i)
 RECURSIVE Join(_)
 Join(p) == IF p = <<>> THEN "" ELSE IF Len(p) = 1 THEN p[1] ELSE p[1] \o "." \o Join(Tail(p))
@@ -13,18 +17,80 @@ Own(i) == "s" \o N2S(i)
 CM(in, i) == IF in.ms[i].it = "ren" THEN "r" \o N2S(i) ELSE "s" \o N2S(i)
 Tag(i, x) == "t" \o N2S(i) \o "(" \o x \o ")"
 Leaf(in, i) == Dot(in.ms[i].path, CM(in, i))               \* where member i lives in the counterpart
+GLeaf(in, j) == Dot(in.gs[j].path, "g" \o N2S(j))
 
 Prefix(p, n) == SubSeq(p, 1, n)
-Nodes(in) == UNION {{Prefix(in.ms[i].path, n) : n \in 1..Len(in.ms[i].path)} : i \in DOMAIN in.ms}   \* every intermediate struct
+PrefixesOf(p) == {Prefix(p, n) : n \in 1..Len(p)}
+\* every intermediate struct that must exist in the counterpart
+Nodes(in) == UNION ({PrefixesOf(in.ms[i].path) : i \in DOMAIN in.ms} \cup {PrefixesOf(in.gs[j].path) : j \in DOMAIN in.gs})
 
-FromExp(in) == {[leaf |-> Own(i), val |-> IF in.ms[i].it = "expr" THEN Tag(i, "D." \o Leaf(in, i)) ELSE "D." \o Leaf(in, i)] : i \in DOMAIN in.ms}
-IntoExp(in) == {[leaf |-> Leaf(in, i), val |-> IF in.ms[i].it = "expr" THEN Tag(i, "S." \o Own(i)) ELSE "S." \o Own(i)] : i \in DOMAIN in.ms}
+Val(in, i, side) == IF in.ms[i].it = "expr" THEN Tag(i, side) ELSE side
+FromExp(in) == {[leaf |-> Own(i), val |-> Val(in, i, "D." \o Leaf(in, i))] : i \in DOMAIN in.ms}
+IntoWritten(in) == {[leaf |-> Leaf(in, i), val |-> Val(in, i, "S." \o Own(i))] : i \in DOMAIN in.ms}
+                   \cup {[leaf |-> GLeaf(in, j), val |-> "gx" \o N2S(j) \o "()"] : j \in DOMAIN in.gs}
+IntoExp(in) == IntoWritten(in)
 \* into_existing: every other leaf of the pre-existing nested value keeps its atom
-IEExp(in, others) == IntoExp(in) \cup {[leaf |-> o, val |-> "P." \o o] : o \in others}
+IEExp(in, others) == IntoWritten(in) \cup {[leaf |-> o, val |-> "P." \o o] : o \in others}
 Expected(in, k, others) == IF IsFrom(k) THEN FromExp(in) ELSE IF IsIE(k) THEN IEExp(in, others) ELSE IntoExp(in)
+Sites(in) == {i \in DOMAIN in.ms : in.ms[i].it = "expr"}
 
 WellFormed(in) == /\ Len(in.ms) >= 1
                   /\ \A i, j \in DOMAIN in.ms : i # j => Leaf(in, i) # Leaf(in, j)
                   \* a leaf name must not collide with a child node name in the same struct
                   /\ \A i \in DOMAIN in.ms : Append(in.ms[i].path, CM(in, i)) \notin Nodes(in)
+                  /\ \A j \in DOMAIN in.gs : in.gs[j].path # <<>>
+
+\* ------------------------------------------------------------------------------------------
+\* Algorithm layer (expand.rs: struct_init_block / struct_init_block_inner / render_child*), on `fields`:
+\* the sequence of child paths of the field containers in declaration order (<<>> = a top-level member).
+\* ------------------------------------------------------------------------------------------
+IsPrefixOfP(q, p) == Len(q) <= Len(p) /\ Prefix(p, Len(q)) = q
+Key(fields, i) == IF fields[i] = <<>> THEN <<"#", i>> ELSE fields[i]       \* a top-level member is its own group
+FirstSeen(fields, k) == CHOOSE i \in 1..Len(fields) : Key(fields, i) = k /\ \A j \in 1..(i-1) : Key(fields, j) # k
+GrIdx(fields, i) == FirstSeen(fields, Key(fields, i))                      \* as implemented: rank of first sight of the full path
+FirstSeenPrefix(fields, q) == CHOOSE i \in 1..Len(fields) : IsPrefixOfP(q, fields[i]) /\ \A j \in 1..(i-1) : ~IsPrefixOfP(q, fields[j])
+\* repaired: for every prefix of the path the index of the first container inside that subtree, then the index of the first
+\* container with exactly this path -- subtrees stay contiguous, and inside one node direct members and sub-nodes keep the
+\* order of their first appearance (what the implementation already does whenever it is right, and what positional
+\* construction of tuple-like children relies on)
+KeyVec(fields, i) == IF fields[i] = <<>> THEN <<i>>
+                     ELSE [n \in 1..Len(fields[i]) |-> FirstSeenPrefix(fields, Prefix(fields[i], n))] \o <<FirstSeen(fields, fields[i])>>
+RECURSIVE LexLess(_, _)
+LexLess(a, b) == IF a = <<>> THEN b # <<>> ELSE IF b = <<>> THEN FALSE
+                 ELSE IF a[1] < b[1] THEN TRUE ELSE IF a[1] > b[1] THEN FALSE ELSE LexLess(Tail(a), Tail(b))
+Less(fields, repaired, i, j) ==
+  IF repaired THEN (LexLess(KeyVec(fields, i), KeyVec(fields, j)) \/ (KeyVec(fields, i) = KeyVec(fields, j) /\ i < j))
+  ELSE (GrIdx(fields, i) < GrIdx(fields, j) \/ (GrIdx(fields, i) = GrIdx(fields, j) /\ i < j))
+Order(fields, repaired) == SortSeq([i \in 1..Len(fields) |-> i], LAMBDA i, j : Less(fields, repaired, i, j))   \* stable sort
+
+\* the descent: returns <<events, rest>>; ctx = <<path, depth>> or <<>>
+RECURSIVE Inner(_, _, _)
+Inner(fields, cur, ctx) ==
+  IF cur = <<>> THEN <<<<>>, <<>>>>
+  ELSE LET f == cur[1]  p == fields[f] IN
+    IF ctx # <<>> /\ ~IsPrefixOfP(Prefix(ctx[1], ctx[2]), p) THEN <<<<>>, cur>>            \* break: not in this child
+    ELSE LET depth == IF ctx = <<>> THEN 0 ELSE ctx[2] IN
+      IF p # <<>> /\ depth < Len(p)
+      THEN LET r == Inner(fields, cur, <<p, depth + 1>>)                                   \* OpenChild ... CloseChild
+               k == Inner(fields, r[2], ctx)
+           IN <<<<[ev |-> "open", path |-> Prefix(p, depth + 1)]>> \o r[1] \o <<[ev |-> "close"]>> \o k[1], k[2]>>
+      ELSE LET k == Inner(fields, Tail(cur), ctx) IN <<<<[ev |-> "line", f |-> f]>> \o k[1], k[2]>>
+Events(fields, repaired) == Inner(fields, Order(fields, repaired), <<>>)[1]
+Opens(ev, q) == Len(SelectSeq(ev, LAMBDA e : e.ev = "open" /\ e.path = q))
+AllPrefixes(fields) == UNION {PrefixesOf(fields[i]) : i \in 1..Len(fields)}
+OnceEach(fields, repaired) == \A q \in AllPrefixes(fields) : Opens(Events(fields, repaired), q) = 1
+AllLines(fields, repaired) == \A i \in 1..Len(fields) : Len(SelectSeq(Events(fields, repaired), LAMBDA e : e.ev = "line" /\ e.f = i)) = 1
+\* prediction of the model of the code as it is now (the repaired key, /repo fix for finding F8): TLC proves it is never true in bounds
+DupConstruct(fields) == ~OnceEach(fields, TRUE)
+\* the key as it was before the repair (kept as a regression model: MC_Group_asis shows TLC's counterexample)
+DupConstructOld(fields) == ~OnceEach(fields, FALSE)
+\* the order in which the implementation visits members (the hook's on_sorted event is compared with this)
+\* field containers: one per member, then one per struct-level ghosts entry whose child path has not been seen before
+RECURSIVE NewGhostPaths(_, _, _)
+NewGhostPaths(gs, j, seen) == IF j > Len(gs) THEN <<>>
+                              ELSE IF gs[j].path \in seen THEN NewGhostPaths(gs, j + 1, seen)
+                              ELSE <<gs[j].path>> \o NewGhostPaths(gs, j + 1, seen \cup {gs[j].path})
+FieldsOf(in) == [i \in DOMAIN in.ms |-> in.ms[i].path] \o NewGhostPaths(in.gs, 1, {in.ms[i].path : i \in DOMAIN in.ms})
+Cell(in, k, f) == [kind |-> k, fallible |-> f, dup_predicted |-> DupConstruct(FieldsOf(in)), ghosts |-> in.gs # <<>>,
+                   depth |-> IF in.ms = <<>> THEN 0 ELSE CHOOSE d \in 0..9 : (\E i \in DOMAIN in.ms : Len(in.ms[i].path) = d) /\ \A i \in DOMAIN in.ms : Len(in.ms[i].path) <= d]
 =============================================================================
